@@ -24,6 +24,19 @@ def rng_restore(s):
     np.random.set_state(s[1])
 
 
+def same(a, b):
+    """Deep equality that also handles NumPy array values."""
+    if isinstance(a, dict) and isinstance(b, dict):
+        return a.keys() == b.keys() and all(same(a[k], b[k]) for k in a)
+    if isinstance(a, np.ndarray) or isinstance(b, np.ndarray):
+        try:
+            return bool(np.array_equal(np.asarray(a), np.asarray(b)))
+        except Exception:
+            return False
+    r = (a == b)
+    return bool(r) if not isinstance(r, np.ndarray) else bool(r.all())
+
+
 def c01_ok(e):
     tot = 0
     for v in e.importance_values.values():
@@ -106,6 +119,11 @@ def main(run):
             cfg["n_inner"] = min(cfg["n_inner"], 3)
             cfg["steps"] = STREAM[run.tier]
             scenarios.append(("incr", cfg, rnd.randrange(2 ** 31)))
+        # float-mode SAGE whose model returns NumPy arrays as dict values (mutable estimates: in-place updates must not leak)
+        cfg = gen_cfg(rnd, "sage", exact=False)
+        cfg.update(d=min(cfg["d"], 3), n_inner=min(cfg["n_inner"], 2), steps=STREAM[run.tier], model="array1", loss="sqf",
+                   dyn=(i % 2 == 0), imputer=rnd.choice(["joint", "product", "custom"]))
+        scenarios.append(("incr", cfg, rnd.randrange(2 ** 31)))
     for i in range(N_BATCH[run.tier]):
         for kind in ("batch", "interval"):
             scenarios.append((kind, None, rnd.randrange(2 ** 31)))
@@ -116,7 +134,7 @@ def main(run):
             run.other_error(f"C15:construct:{type(ex).__name__}")
             continue
         cfgd = sc.cfg
-        is_sage = cfgd["explainer"] == "sage"
+        is_sage = cfgd["explainer"] == "sage" and cfgd.get("exact", True)
         run.count("configs")
         nsteps = STREAM[run.tier] if what == "incr" else 5
         stop = False
@@ -156,8 +174,8 @@ def main(run):
                     break
                 run.see("exception-types", type(raised).__name__)
                 after = b.snapshot()
-                if not (after == before):
-                    diff = [key for key in before if not (before[key] == after.get(key))]
+                if not same(after, before):
+                    diff = [key for key in before if not same(before[key], after.get(key))]
                     where = "storage" if site.startswith("storage.update") else "callback"
                     run.violation(f"estimates-changed:{cfgd['explainer']}:{where}",
                                   f"{tag}: {diff} changed, e.g. {diff[0]}: {before[diff[0]]!r} -> {after[diff[0]]!r}", replay)
@@ -191,8 +209,8 @@ def main(run):
                             twin2.step(x2, y2)
                             run.ok(kind="resumed-twin")
                             sa, sb = b.snapshot(), twin2.snapshot()
-                            if not (sa == sb):
-                                diff = [key for key in sa if not (sa[key] == sb.get(key))]
+                            if not same(sa, sb):
+                                diff = [key for key in sa if not same(sa[key], sb.get(key))]
                                 run.violation(f"hidden-state-changed:{cfgd['explainer']}",
                                               f"{tag}: after resuming {r + 1} calls {diff} differ from a twin that never saw the failed call, "
                                               f"e.g. {diff[0]}: {sa[diff[0]]!r} vs {sb[diff[0]]!r}", replay)
@@ -225,7 +243,7 @@ def main(run):
                     b.clock.fail_at = None
                     faults += 1
                     run.ok(kind="repeated-fault")
-                    if not (b.snapshot() == snap):
+                    if not same(b.snapshot(), snap):
                         run.violation(f"estimates-changed:{cfgd['explainer']}:repeated", f"{cfgd['explainer']} repeated fault #{faults}: estimates changed",
                                       {"cfg": cfgd, "seed": seed})
                         break
